@@ -157,18 +157,18 @@ func checkAccumulator(effs []effect, obs map[int]bool) keyVerdict {
 		}
 		return keyVerdict{}
 	}
-	var first keyVerdict
-	for i := len(cands) - 1; i >= 0; i-- { // later removals first: their verdict is the most telling one
-		v := try(cands[i])
-		if v.Clause == "" {
+	for _, r := range cands {
+		if v := try(r); v.Clause == "" {
 			return v
 		}
-		if v.Clause != "not-last" && first.Clause == "" {
-			first = v
+	}
+	// refuted. Report against the definitive last removal: the acknowledged removal (or the initial
+	// state) that no other acknowledged removal follows and that was invoked last.
+	best := initial
+	for _, r := range cands {
+		if r.Acked && r.Call >= best.Call && try(r).Clause != "not-last" {
+			best = r
 		}
 	}
-	if first.Clause == "" {
-		first = keyVerdict{Clause: "resurrected", Detail: "no removal can be the last one"}
-	}
-	return first
+	return try(best)
 }
